@@ -108,13 +108,42 @@ def main():
         drv.ask("evalmulti", thr, nodes, ss)
     replies = drv.run()
 
-    for (routine, nodes, ss, regime), (st, model) in zip(cases, replies):
+    for ci, ((routine, nodes, ss, regime), (st, model)) in enumerate(zip(cases, replies)):
         n = len(nodes[0]) - 1
         dim = len(nodes)
         arr = C.farr(nodes)
         svals = np.array([float(s) for s in ss])
         l1 = 1.0 - svals
-        if routine == "evaluate_multi":
+        # memory layout of the PARAMETER vector: every fourth case hands over a strided view, every fourth a view with a
+        # negative stride (the values are the same; a documented refusal of the layout is accepted, other points are not)
+        lay = (rep or {}).get("layout") if rep else ("F", "F", "strided", "reversed")[ci % 4]
+        lay = lay or "F"
+        if lay == "strided" and len(ss) >= 2:
+            big = np.repeat(svals, 2)
+            big[1::2] = 0.123456789
+            svals = big[::2]
+            bigl = np.repeat(l1, 2)
+            bigl[1::2] = 0.987654321
+            l1 = bigl[::2]
+        elif lay == "reversed" and len(ss) >= 2:
+            svals = np.ascontiguousarray(svals[::-1])[::-1]
+            l1 = np.ascontiguousarray(l1[::-1])[::-1]
+        try:
+            out = None
+            if routine == "evaluate_multi":
+                out = CH.evaluate_multi(arr, svals)
+            elif routine == "evaluate_multi_barycentric":
+                out = CH.evaluate_multi_barycentric(arr, l1, svals)
+            elif routine == "Curve.evaluate_multi":
+                out = bezier.Curve(arr, n, copy=True, verify=True).evaluate_multi(svals)
+        except ValueError as exc:
+            if lay != "F" and "contiguous" in str(exc):
+                res.skip("parameter vector as a %s view refused (%s)" % (lay, cfg))
+                continue
+            raise
+        if out is not None:
+            pass
+        elif routine == "evaluate_multi":
             out = CH.evaluate_multi(arr, svals)
         elif routine == "evaluate_multi_barycentric":
             out = CH.evaluate_multi_barycentric(arr, l1, svals)
@@ -138,7 +167,7 @@ def main():
                     "params": C.jfr(ss[:3]), "impl_first": out[0, 0].hex()})
         if out.shape != (dim, len(ss)):
             res.failure("shape", "result shape %r != (%d,%d)" % (out.shape, dim, len(ss)),
-                        {"routine": routine, "nodes": C.jfr(nodes), "params": C.jfr(ss), "regime": regime})
+                        {"routine": routine, "nodes": C.jfr(nodes), "params": C.jfr(ss), "regime": regime, "layout": lay})
             continue
         for r in range(dim):
             for c, s in enumerate(ss):
@@ -151,7 +180,7 @@ def main():
                     res.mismatch("model-vs-spec", {"nodes": C.jfr(nodes[r]), "s": str(s)}, str(mval), str(spec))
                 scale = X.bern_abs(nodes[r], s)
                 rep_case = {"routine": routine, "nodes": C.jfr(nodes if dim <= 4 else [nodes[r]]),
-                            "params": C.jfr(ss), "regime": regime}
+                            "params": C.jfr(ss), "regime": regime, "layout": lay}
                 if regime == "E":
                     if got != mval:
                         res.mismatch(routine, rep_case, str(got), str(mval), "E regime: must be bit-exact")
